@@ -3,6 +3,7 @@ import RTA.Model.XCurve
 import RTA.Model.Ros
 import RTA.Model.XCost
 import RTA.Spec.Naive
+import RTA.Model.Poisson
 import RTA.Spec.NaiveRos
 /-! Line-protocol driver: one operation per input line, one result per output line. -/
 
@@ -186,6 +187,21 @@ def evalOp : List String → Option String
           (go w' rest).map (out :: ·)
         else none
     pure (match go w ops with | some outs => listToStr outs | none => "panic")
+  | "pois_na" :: ts => do
+    let (rn, ts) ← pNat ts
+    let (rd, ts) ← pNat ts
+    let (en, ts) ← pNat ts
+    let (ed, ts) ← pNat ts
+    let (delta, _) ← pNat ts
+    pure (match poissonNaF (rn.toFloat / rd.toFloat) (en.toFloat / ed.toFloat) delta with
+      | some n => toString n
+      | none => "hang")
+  | "pois_p" :: ts => do
+    let (rn, ts) ← pNat ts
+    let (rd, ts) ← pNat ts
+    let (delta, ts) ← pNat ts
+    let (n, _) ← pNat ts
+    pure (toString (poissonPmfF (rn.toFloat / rd.toFloat) delta n).toBits)
   | "maxrt" :: ts => do
     let (rs, _) ← pList pRes ts
     pure (maxResponseTime rs).toStr
